@@ -654,7 +654,8 @@ class ClientTls(Client):
             data = self.cs.recv(self.bs)
         except socket.error as ex:  # ssl.SSLError is a subtype of socket.error
             # ex.args[0] is always ex.errno for better compat
-            if ex.args[0] in (ssl.SSL_ERROR_WANT_READ, ssl.SSL_ERROR_WANT_WRITE):
+            if (isinstance(ex, ssl.SSLError) and
+                    ex.args[0] in (ssl.SSL_ERROR_WANT_READ, ssl.SSL_ERROR_WANT_WRITE)):
                 return None
             elif (isinstance(ex, ssl.SSLEOFError) or
                   ex.args[0] in (errno.ECONNRESET,
@@ -703,7 +704,8 @@ class ClientTls(Client):
             result = self.cs.send(data) #result is number of bytes sent
         except socket.error as ex:  # ssl.SSLError is a subtype of socket.error
             # ex.args[0] is always ex.errno for better compat
-            if ex.args[0] in (ssl.SSL_ERROR_WANT_READ, ssl.SSL_ERROR_WANT_WRITE):
+            if (isinstance(ex, ssl.SSLError) and
+                    ex.args[0] in (ssl.SSL_ERROR_WANT_READ, ssl.SSL_ERROR_WANT_WRITE)):
                 result = 0
             elif (isinstance(ex, ssl.SSLEOFError) or
                   ex.args[0] in (errno.ECONNRESET,
